@@ -37,6 +37,7 @@ type RootSpec struct {
 	NativeStress []int             `json:"native_stress"`     // [argIndex, value]: when a finding of this root is replayed natively, that argument (a repetition count) is raised so that the native scheduler gets many chances to take the interleaving
 	PreemptAt    []string          `json:"preempt_at"`        // restrict lock preemption points to Lock calls made from functions matching one of these substrings
 	PreemptLock  bool              `json:"preempt_at_lock"`   // every mutex acquisition is a preemption point
+	TimersWait   bool              `json:"timers_may_wait"`   // a select whose only ready cases are timers also explores "the timer fires later, after the other runnable goroutines"
 	TimersOff    bool              `json:"timers_never_fire"` // time.NewTimer never fires in this root (default: may fire at any moment)
 	SkipGo       []string          `json:"skip_go"`           // goroutines (by function-name substring) that are not started in this root
 }
@@ -453,6 +454,7 @@ func newMachine(l *Loaded, spec *RootSpec, solverBin string) *Machine {
 	}
 	m.skipGo = spec.SkipGo
 	m.timersOff = spec.TimersOff
+	m.timersWait = spec.TimersWait
 	m.preemptLock = spec.PreemptLock
 	m.preemptBound = spec.PreemptBound
 	m.preemptAt = spec.PreemptAt
@@ -732,6 +734,7 @@ func cmdRun(a []string) int {
 				spec.Replace = r.Replace
 				spec.PreemptLock = r.PreemptLock
 				spec.TimersOff = r.TimersOff
+				spec.TimersWait = r.TimersWait
 				spec.PreemptBound = r.PreemptBound
 				spec.PreemptAt = r.PreemptAt
 			}
